@@ -9,7 +9,8 @@ import H3.Drv.FaultOp
       itself, or inside the QUIC trait implementation: `InternalError`), once, with exactly that
       error's code, before the error is first reported; otherwise never.
     * C04 / RFC 9114 §6.2.1 — the endpoint's control stream stopped by the peer (or broken) is
-      H3_CLOSED_CRITICAL_STREAM; §6.1 — a server-initiated bidirectional stream received by a client is
+      H3_CLOSED_CRITICAL_STREAM, raised by the call that meets it (the next call to complete answers
+      an error); §6.1 — a server-initiated bidirectional stream received by a client is
       H3_STREAM_CREATION_ERROR; §6.2.3 — the grease stream has no semantics: an error on it is not
       a connection error; streams that end before their type is known are tolerated.
     * C06 — once the transport has reported a connection error (or the peer closed / the connection
@@ -52,6 +53,9 @@ structure J where
   closes : List Nat := []
   /-- ops applied after `failed` whose call must report the failure: the task.call names -/
   lateCalls : List String := []
+  /-- the transport has just answered a call on the endpoint's control stream (or its opening) with a
+      stream error: the call h3 is in must end with a connection error -/
+  mustErr : Option String := none
   bad : Option String := none
   unknown : Bool := false
 deriving Repr
@@ -140,7 +144,7 @@ def onFired (j : J) (label : String) : J :=
     | _ =>
       let ctl := ctlSid j.server
       match f.site, f.target with
-      | .ou, some 0 => { j with causes := j.causes ++ [.anyLocal] }
+      | .ou, some 0 => { j with causes := j.causes ++ [.anyLocal], mustErr := some label }
       | .ou, some 1 => { j with causes := j.causes ++ [.anyLocal] }
       | .ou, some 2 => { j with causes := j.causes ++ [.anyLocal] }
       | .ou, some 3 => if j.grease then j else { j with unknown := true }
@@ -151,7 +155,7 @@ def onFired (j : J) (label : String) : J :=
       | .ou, _ => { j with unknown := true }
       | .ob, _ => { j with unknown := true }
       | _, some sid =>
-        if sid == ctl then { j with causes := j.causes ++ [.exact "local:260"] }
+        if sid == ctl then { j with causes := j.causes ++ [.exact "local:260"], mustErr := some label }
         else if sid == ctl + 4 || sid == ctl + 8 then { j with causes := j.causes ++ [.anyLocal] }
         else if sid == greaseSid j.server && j.grease then j
         else { j with unknown := true }
@@ -159,6 +163,11 @@ def onFired (j : J) (label : String) : J :=
 
 /-- a call completes -/
 def onResult (j : J) (call res : String) : J :=
+  let j :=
+    match j.mustErr with
+    | some lab => if res.startsWith "err:" then { j with mustErr := none }
+                  else { (j.fail s!"{call}={res}-after:{lab}") with mustErr := none }
+    | none => j
   if res.startsWith "err:" then
     let cls := (res.drop 4).toString
     match j.firstErr with
